@@ -300,214 +300,111 @@ Proof. exact delta_mass_in_spec. Qed.
 Print Assumptions C12_delta_mass_in.
 
 (* ====================================================================== *)
-(* B. over the reals (RealSpec/KdeR.v)                                      *)
+(* B. over the reals (RealSpec/KdeR.v); grouped, one statement per topic    *)
 (* ====================================================================== *)
 Local Open Scope R_scope.
 
-(* the Epanechnikov distribution function is an antiderivative of the density, everywhere
-   (including the junctions x = -h, h) *)
-Theorem C12_R_epan_cdf_derive : forall h : R, 0 < h ->
-  forall x : R, is_derive (RealSpec.KdeR.epan_cdf h) x (RealSpec.KdeR.epan_pdf h x).
-Proof. exact Proofs.KdeR.epan_cdf_derive. Qed.
-Print Assumptions C12_R_epan_cdf_derive.
+(* the Epanechnikov distribution function is an antiderivative of the density EVERYWHERE
+   (including the junctions x = -h, h); density >= 0, distribution function monotone, mass 1 *)
+Theorem C12_R_epanechnikov_kernel : forall h : R, 0 < h ->
+  (forall x : R, is_derive (RealSpec.KdeR.epan_cdf h) x (RealSpec.KdeR.epan_pdf h x)) /\
+  (forall x : R, 0 <= RealSpec.KdeR.epan_pdf h x) /\
+  (forall a b : R, a <= b -> RealSpec.KdeR.epan_cdf h a <= RealSpec.KdeR.epan_cdf h b) /\
+  RInt (RealSpec.KdeR.epan_pdf h) (- h) h = 1.
+Proof. exact Proofs.KdeCap.R_epanechnikov_kernel. Qed.
+Print Assumptions C12_R_epanechnikov_kernel.
 
-Theorem C12_R_epan_mass_one : forall h : R, 0 < h -> RInt (RealSpec.KdeR.epan_pdf h) (- h) h = 1.
-Proof. exact Proofs.KdeR.epan_mass_one. Qed.
-Print Assumptions C12_R_epan_mass_one.
-
-(* any kernel pair K' = k, any weighted sample: CDF' = PDF and the integral of PDF over any
-   interval is the difference of CDF *)
-Theorem C12_R_kde_cdf_derive : forall k K : R -> R, (forall x : R, is_derive K x (k x)) ->
-  forall (d : RealSpec.KdeR.sample) (x : R),
-    is_derive (RealSpec.KdeR.kde_mix K d) x (RealSpec.KdeR.kde_mix k d x).
-Proof. exact Proofs.KdeR.kde_cdf_derive. Qed.
-Print Assumptions C12_R_kde_cdf_derive.
-
-Theorem C12_R_kde_integral : forall k K : R -> R, (forall x : R, is_derive K x (k x)) ->
-  (forall x : R, continuous k x) ->
-  forall (d : RealSpec.KdeR.sample) (a b : R),
-    RInt (RealSpec.KdeR.kde_mix k d) a b = RealSpec.KdeR.kde_mix K d b - RealSpec.KdeR.kde_mix K d a.
-Proof. exact Proofs.KdeR.kde_integral. Qed.
-Print Assumptions C12_R_kde_integral.
-
-(* total mass 1 of the unbounded Epanechnikov estimate *)
-Theorem C12_R_epan_kde_mass_one : forall h : R, 0 < h ->
+(* ANY kernel pair K' = k >= 0 (k continuous), any sample with positive weights: CDF' = PDF,
+   PDF >= 0, CDF monotone, the integral of PDF over any interval is the CDF difference, and
+   CDF tends to 0 / 1 when K does *)
+Theorem C12_R_kernel_average : forall k K : R -> R, (forall x : R, is_derive K x (k x)) ->
+  (forall x : R, 0 <= k x) -> (forall x : R, continuous k x) ->
   forall d : RealSpec.KdeR.sample, RealSpec.KdeR.sample_ok d ->
-  forall lo hi : R, RealSpec.KdeR.sample_within lo hi d ->
-  RInt (RealSpec.KdeR.kde_mix (RealSpec.KdeR.epan_pdf h) d) (lo - h) (hi + h) = 1.
-Proof. exact Proofs.KdeR.epan_kde_mass_one. Qed.
-Print Assumptions C12_R_epan_kde_mass_one.
+  (forall x : R, is_derive (RealSpec.KdeR.kde_mix K d) x (RealSpec.KdeR.kde_mix k d x)) /\
+  (forall x : R, 0 <= RealSpec.KdeR.kde_mix k d x) /\
+  (forall a b : R, a <= b -> RealSpec.KdeR.kde_mix K d a <= RealSpec.KdeR.kde_mix K d b) /\
+  (forall a b : R, RInt (RealSpec.KdeR.kde_mix k d) a b = RealSpec.KdeR.kde_mix K d b - RealSpec.KdeR.kde_mix K d a) /\
+  (is_lim K m_infty 0 -> is_lim K p_infty 1 ->
+   is_lim (RealSpec.KdeR.kde_mix K d) m_infty 0 /\ is_lim (RealSpec.KdeR.kde_mix K d) p_infty 1).
+Proof. exact Proofs.KdeCap.R_kernel_average. Qed.
+Print Assumptions C12_R_kernel_average.
 
-(* reflection at one boundary keeps the derivative pair, for any pair F' = f *)
-Theorem C12_R_refl_low_derive : forall f F : R -> R, (forall x : R, is_derive F x (f x)) ->
-  forall m x : R, is_derive (RealSpec.KdeR.refl_low_cdf F m) x (RealSpec.KdeR.refl_low_pdf f m x).
-Proof. exact Proofs.KdeR.refl_low_derive. Qed.
-Print Assumptions C12_R_refl_low_derive.
+(* reflection at one boundary keeps the derivative pair, for ANY pair F' = f (f continuous):
+   CDF(min) = 0, CDF(max) = 1, integral from / to the boundary = reflected CDF *)
+Theorem C12_R_reflection : forall f F : R -> R, (forall x : R, is_derive F x (f x)) ->
+  (forall x : R, continuous f x) ->
+  (forall m x : R, is_derive (RealSpec.KdeR.refl_low_cdf F m) x (RealSpec.KdeR.refl_low_pdf f m x)) /\
+  (forall M x : R, is_derive (RealSpec.KdeR.refl_high_cdf F M) x (RealSpec.KdeR.refl_high_pdf f M x)) /\
+  (forall m : R, RealSpec.KdeR.refl_low_cdf F m m = 0) /\
+  (forall M : R, RealSpec.KdeR.refl_high_cdf F M M = 1) /\
+  (forall m b : R, RInt (RealSpec.KdeR.refl_low_pdf f m) m b = RealSpec.KdeR.refl_low_cdf F m b) /\
+  (forall M a : R, RInt (RealSpec.KdeR.refl_high_pdf f M) a M = 1 - RealSpec.KdeR.refl_high_cdf F M a).
+Proof. exact Proofs.KdeCap.R_reflection. Qed.
+Print Assumptions C12_R_reflection.
 
-Theorem C12_R_refl_high_derive : forall f F : R -> R, (forall x : R, is_derive F x (f x)) ->
-  forall M x : R, is_derive (RealSpec.KdeR.refl_high_cdf F M) x (RealSpec.KdeR.refl_high_pdf f M x).
-Proof. exact Proofs.KdeR.refl_high_derive. Qed.
-Print Assumptions C12_R_refl_high_derive.
-
-(* ... and the mass: integral from the boundary = the reflected CDF *)
-Theorem C12_R_refl_low_integral : forall f F : R -> R, (forall x : R, is_derive F x (f x)) ->
-  forall m b : R, (forall x : R, continuous f x) ->
-  RInt (RealSpec.KdeR.refl_low_pdf f m) m b = RealSpec.KdeR.refl_low_cdf F m b.
-Proof. exact Proofs.KdeR.refl_low_integral. Qed.
-Print Assumptions C12_R_refl_low_integral.
-
-Theorem C12_R_refl_high_integral : forall f F : R -> R, (forall x : R, is_derive F x (f x)) ->
-  forall M a : R, (forall x : R, continuous f x) ->
-  RInt (RealSpec.KdeR.refl_high_pdf f M) a M = 1 - RealSpec.KdeR.refl_high_cdf F M a.
-Proof. exact Proofs.KdeR.refl_high_integral. Qed.
-Print Assumptions C12_R_refl_high_integral.
-
-Theorem C12_R_epan_refl_low_mass_one : forall h : R, 0 < h ->
-  forall d : RealSpec.KdeR.sample, RealSpec.KdeR.sample_ok d ->
-  forall lo hi : R, RealSpec.KdeR.sample_within lo hi d -> forall m : R, m <= lo ->
-  RInt (RealSpec.KdeR.refl_low_pdf (RealSpec.KdeR.kde_mix (RealSpec.KdeR.epan_pdf h) d) m) m (hi + h) = 1.
-Proof. exact Proofs.KdeR.epan_refl_low_mass_one. Qed.
-Print Assumptions C12_R_epan_refl_low_mass_one.
-
-Theorem C12_R_epan_refl_high_mass_one : forall h : R, 0 < h ->
-  forall d : RealSpec.KdeR.sample, RealSpec.KdeR.sample_ok d ->
-  forall lo hi : R, RealSpec.KdeR.sample_within lo hi d -> forall M : R, hi <= M ->
-  RInt (RealSpec.KdeR.refl_high_pdf (RealSpec.KdeR.kde_mix (RealSpec.KdeR.epan_pdf h) d) M) (lo - h) M = 1.
-Proof. exact Proofs.KdeR.epan_refl_high_mass_one. Qed.
-Print Assumptions C12_R_epan_refl_high_mass_one.
-
-(* the image sums form a derivative pair for every order N, for any pair F' = f *)
-Theorem C12_R_img_derive : forall f F : R -> R, (forall x : R, is_derive F x (f x)) ->
-  forall (m M : R) (N : nat) (x : R),
-    is_derive (RealSpec.KdeR.img_cdf F m M N) x (RealSpec.KdeR.img_pdf f m M N x).
-Proof. exact Proofs.KdeR.img_derive. Qed.
-Print Assumptions C12_R_img_derive.
-
-Theorem C12_R_img_integral : forall f F : R -> R, (forall x : R, is_derive F x (f x)) ->
-  forall (m M : R) (N : nat) (a b : R), (forall y : R, continuous f y) ->
-  RInt (RealSpec.KdeR.img_pdf f m M N) a b = RealSpec.KdeR.img_cdf F m M N b - RealSpec.KdeR.img_cdf F m M N a.
-Proof. exact Proofs.KdeR.img_integral. Qed.
-Print Assumptions C12_R_img_integral.
-
-(* the mass on [m, M] telescopes, for ANY kernel pair: it is 1 exactly when the outermost
-   images carry the whole / none of the distribution (Gaussian: only in the limit N -> inf) *)
-Theorem C12_R_img_cdf_at_max : forall (F : R -> R) (m M : R) (N : nat),
+(* the image sums form a derivative pair for every order N, for ANY pair F' = f; the mass on
+   [m, M] telescopes: it is 1 exactly when the outermost images carry all / none of F *)
+Theorem C12_R_images : forall f F : R -> R, (forall x : R, is_derive F x (f x)) ->
+  (forall x : R, continuous f x) -> forall (m M : R) (N : nat),
+  (forall x : R, is_derive (RealSpec.KdeR.img_cdf F m M N) x (RealSpec.KdeR.img_pdf f m M N x)) /\
+  (forall a b : R, RInt (RealSpec.KdeR.img_pdf f m M N) a b =
+                   RealSpec.KdeR.img_cdf F m M N b - RealSpec.KdeR.img_cdf F m M N a) /\
+  RealSpec.KdeR.img_cdf F m M N m = 0 /\
   RealSpec.KdeR.img_cdf F m M N M =
-  F (M + INR N * RealSpec.KdeR.img_period m M) - F (M - (INR N + 1) * RealSpec.KdeR.img_period m M).
-Proof. exact Proofs.KdeR.img_cdf_at_max. Qed.
-Print Assumptions C12_R_img_cdf_at_max.
+    F (M + INR N * RealSpec.KdeR.img_period m M) - F (M - (INR N + 1) * RealSpec.KdeR.img_period m M).
+Proof. exact Proofs.KdeCap.R_images. Qed.
+Print Assumptions C12_R_images.
 
-(* total mass 1 of the doubly bounded Epanechnikov estimate *)
-Theorem C12_R_epan_img_mass_one : forall (h : R) (d : RealSpec.KdeR.sample) (m M : R) (N : nat),
-  0 < h -> RealSpec.KdeR.sample_ok d -> RealSpec.KdeR.sample_within m M d ->
-  M - m + h <= INR N * RealSpec.KdeR.img_period m M ->
-  RInt (RealSpec.KdeR.img_pdf (RealSpec.KdeR.kde_mix (RealSpec.KdeR.epan_pdf h) d) m M N) m M = 1.
-Proof. exact Proofs.KdeR.epan_img_pdf_mass_one'. Qed.
-Print Assumptions C12_R_epan_img_mass_one.
-
-(* ====================================================================== *)
-(* B'. general and Gaussian kernels: limits, the Gaussian instance          *)
-(* ====================================================================== *)
-(* CDF tends to 0 / 1 for ANY kernel distribution function with these limits *)
-Theorem C12_R_kde_cdf_limits : forall (K : R -> R) (d : RealSpec.KdeR.sample),
-  is_lim K m_infty 0 -> is_lim K p_infty 1 -> RealSpec.KdeR.sample_ok d ->
-  is_lim (RealSpec.KdeR.kde_mix K d) m_infty 0 /\ is_lim (RealSpec.KdeR.kde_mix K d) p_infty 1.
-Proof. exact Proofs.KdeQR.kde_cdf_limits. Qed.
-Print Assumptions C12_R_kde_cdf_limits.
-
-(* the Gaussian kernel NormalDist{0, h} is a kernel pair *)
-Theorem C12_R_gauss_kernel_pair : forall h : R, 0 < h ->
-  (forall x : R, is_derive (RealSpec.Normal.Phi 0 h) x (RealSpec.Normal.phi 0 h x)) /\
-  (forall x : R, 0 < RealSpec.Normal.phi 0 h x) /\
-  (forall x : R, continuous (RealSpec.Normal.phi 0 h) x) /\
-  (forall x : R, 0 < RealSpec.Normal.Phi 0 h x < 1) /\
-  is_lim (RealSpec.Normal.Phi 0 h) m_infty 0 /\ is_lim (RealSpec.Normal.Phi 0 h) p_infty 1.
-Proof. exact Proofs.KdeQR.gauss_kernel_pair. Qed.
-Print Assumptions C12_R_gauss_kernel_pair.
-
-(* the unbounded Gaussian estimate: CDF' = PDF >= 0, CDF monotone, integral = CDF difference *)
-Theorem C12_R_gauss_kde_proper : forall h : R, 0 < h ->
+(* the Gaussian kernel NormalDist{0,h} is a kernel pair with limits 0 / 1; the Gaussian
+   estimate is a proper pair with limits 0 / 1; half-bounded: total mass 1 (improper integral);
+   doubly bounded: with finitely many images the mass on [m, M] is strictly below 1 and tends
+   to 1 with the number of images (what the float `series` returns is a truncation whose order
+   depends on underflow: meta/C12.json "partial") *)
+Theorem C12_R_gaussian : forall h : R, 0 < h ->
+  ((forall x : R, is_derive (RealSpec.Normal.Phi 0 h) x (RealSpec.Normal.phi 0 h x)) /\
+   (forall x : R, 0 < RealSpec.Normal.phi 0 h x) /\
+   (forall x : R, continuous (RealSpec.Normal.phi 0 h) x) /\
+   (forall x : R, 0 < RealSpec.Normal.Phi 0 h x < 1) /\
+   is_lim (RealSpec.Normal.Phi 0 h) m_infty 0 /\ is_lim (RealSpec.Normal.Phi 0 h) p_infty 1) /\
   forall d : RealSpec.KdeR.sample, RealSpec.KdeR.sample_ok d ->
-  Proofs.KdeQR.proper_pair (Proofs.KdeQR.gauss_kde_pdf h d) (Proofs.KdeQR.gauss_kde_cdf h d).
-Proof. exact Proofs.KdeQR.gauss_kde_proper. Qed.
-Print Assumptions C12_R_gauss_kde_proper.
+    Proofs.KdeQR.proper_pair (Proofs.KdeQR.gauss_kde_pdf h d) (Proofs.KdeQR.gauss_kde_cdf h d) /\
+    (is_lim (Proofs.KdeQR.gauss_kde_cdf h d) m_infty 0 /\ is_lim (Proofs.KdeQR.gauss_kde_cdf h d) p_infty 1) /\
+    (forall m : R, is_lim (fun b : R => RInt (RealSpec.KdeR.refl_low_pdf (Proofs.KdeQR.gauss_kde_pdf h d) m) m b) p_infty 1) /\
+    (forall M : R, is_lim (fun a : R => RInt (RealSpec.KdeR.refl_high_pdf (Proofs.KdeQR.gauss_kde_pdf h d) M) a M) m_infty 1) /\
+    (forall (m M : R) (N : nat), m < M ->
+       0 < RInt (RealSpec.KdeR.img_pdf (Proofs.KdeQR.gauss_kde_pdf h d) m M N) m M < 1) /\
+    (forall m M : R, m < M ->
+       is_lim_seq (fun N : nat => RInt (RealSpec.KdeR.img_pdf (Proofs.KdeQR.gauss_kde_pdf h d) m M N) m M) 1).
+Proof. exact Proofs.KdeCap.R_gaussian. Qed.
+Print Assumptions C12_R_gaussian.
 
-Theorem C12_R_gauss_kde_cdf_limits : forall h : R, 0 < h ->
-  forall d : RealSpec.KdeR.sample, RealSpec.KdeR.sample_ok d ->
-  is_lim (Proofs.KdeQR.gauss_kde_cdf h d) m_infty 0 /\ is_lim (Proofs.KdeQR.gauss_kde_cdf h d) p_infty 1.
-Proof. exact Proofs.KdeQR.gauss_kde_cdf_limits. Qed.
-Print Assumptions C12_R_gauss_kde_cdf_limits.
-
-(* half-bounded Gaussian estimate: total mass 1 (improper integral) *)
-Theorem C12_R_gauss_refl_low_mass_one : forall h : R, 0 < h ->
-  forall d : RealSpec.KdeR.sample, RealSpec.KdeR.sample_ok d -> forall m : R,
-  is_lim (fun b : R => RInt (RealSpec.KdeR.refl_low_pdf (Proofs.KdeQR.gauss_kde_pdf h d) m) m b) p_infty 1.
-Proof. exact Proofs.KdeQR.gauss_refl_low_mass_one. Qed.
-Print Assumptions C12_R_gauss_refl_low_mass_one.
-
-Theorem C12_R_gauss_refl_high_mass_one : forall h : R, 0 < h ->
-  forall d : RealSpec.KdeR.sample, RealSpec.KdeR.sample_ok d -> forall M : R,
-  is_lim (fun a : R => RInt (RealSpec.KdeR.refl_high_pdf (Proofs.KdeQR.gauss_kde_pdf h d) M) a M) m_infty 1.
-Proof. exact Proofs.KdeQR.gauss_refl_high_mass_one. Qed.
-Print Assumptions C12_R_gauss_refl_high_mass_one.
-
-(* doubly bounded Gaussian estimate: with finitely many images the mass on [m, M] is strictly
-   below 1, and tends to 1 with the number of images (what the float `series` returns is a
-   truncation whose order depends on underflow: see meta/C12.json "partial") *)
-Theorem C12_R_gauss_img_mass_defect : forall h : R, 0 < h ->
-  forall d : RealSpec.KdeR.sample, RealSpec.KdeR.sample_ok d ->
-  forall (m M : R) (N : nat), m < M ->
-  0 < RInt (RealSpec.KdeR.img_pdf (Proofs.KdeQR.gauss_kde_pdf h d) m M N) m M < 1.
-Proof. exact Proofs.KdeQR.gauss_img_mass_defect. Qed.
-Print Assumptions C12_R_gauss_img_mass_defect.
-
-Theorem C12_R_gauss_img_mass_limit : forall h : R, 0 < h ->
-  forall d : RealSpec.KdeR.sample, RealSpec.KdeR.sample_ok d -> forall m M : R, m < M ->
-  is_lim_seq (fun N : nat => RInt (RealSpec.KdeR.img_pdf (Proofs.KdeQR.gauss_kde_pdf h d) m M N) m M) 1.
-Proof. exact Proofs.KdeQR.gauss_img_mass_limit. Qed.
-Print Assumptions C12_R_gauss_img_mass_limit.
-
-(* the 10th-power form of the bandwidth rules is the stated formula; min of the standard
-   deviations = min of the variances *)
-Theorem C12_R_bw10_is_formula : forall (s : R) (s2 n : Q), (0 < n)%Q -> Q2R s2 = s * s ->
-  Q2R (bw10 s2 n) = (106 / 100 * s * Rpower (Q2R n) (- (1 / 5))) ^ 10.
-Proof. exact Proofs.KdeQR.Q2R_bw10. Qed.
-Print Assumptions C12_R_bw10_is_formula.
-
-Theorem C12_R_min_of_squares : forall a b : R, 0 <= a -> 0 <= b -> Rmin a b * Rmin a b = Rmin (a * a) (b * b).
-Proof. exact Proofs.KdeQR.Rmin_sq. Qed.
-Print Assumptions C12_R_min_of_squares.
+(* the 10th-power form of the bandwidth rules is the stated formula 1.06 s n^(-1/5); the
+   minimum of two non-negative deviations is decided by their squares *)
+Theorem C12_R_bandwidth_formula :
+  (forall (s : R) (s2 n : Q), (0 < n)%Q -> Q2R s2 = s * s ->
+     Q2R (bw10 s2 n) = (106 / 100 * s * Rpower (Q2R n) (- (1 / 5))) ^ 10) /\
+  (forall a b : R, 0 <= a -> 0 <= b -> Rmin a b * Rmin a b = Rmin (a * a) (b * b)).
+Proof. exact Proofs.KdeCap.R_bandwidth_formula. Qed.
+Print Assumptions C12_R_bandwidth_formula.
 
 (* ====================================================================== *)
 (* C. bridge: the model's values are the values of a real distribution      *)
 (* ====================================================================== *)
-Theorem C12_Q2R_epan_pdf : forall h x : Q, (0 < h)%Q ->
-  Q2R (epan_pdf h x) = RealSpec.KdeR.epan_pdf (Q2R h) (Q2R x).
-Proof. exact Proofs.KdeQR.Q2R_epan_pdf. Qed.
-Print Assumptions C12_Q2R_epan_pdf.
-
-Theorem C12_Q2R_epan_cdf : forall h x : Q, (0 < h)%Q ->
-  Q2R (epan_cdf h x) = RealSpec.KdeR.epan_cdf (Q2R h) (Q2R x).
-Proof. exact Proofs.KdeQR.Q2R_epan_cdf. Qed.
-Print Assumptions C12_Q2R_epan_cdf.
-
-Theorem C12_Q2R_wavg : forall (g : Q -> Q) (gR : R -> R) (ps : list (Q * Q)) (x : Q),
-  (forall q : Q, Q2R (g q) = gR (Q2R q)) -> pairs_ok ps ->
-  Q2R (wavg g ps x) = RealSpec.KdeR.kde_mix gR (Proofs.KdeQR.sampleR ps) (Q2R x).
-Proof. exact Proofs.KdeQR.Q2R_wavg. Qed.
-Print Assumptions C12_Q2R_wavg.
-
-Theorem C12_Q2R_fold_pdf : forall (f : Q -> Q) (fR : R -> R) (m M : Q) (N : nat) (x : Q),
-  (forall q : Q, Q2R (f q) = fR (Q2R q)) ->
-  Q2R (fold_pdf f m M N x) = RealSpec.KdeR.img_pdf fR (Q2R m) (Q2R M) N (Q2R x).
-Proof. exact Proofs.KdeQR.Q2R_fold_pdf. Qed.
-Print Assumptions C12_Q2R_fold_pdf.
-
-Theorem C12_Q2R_fold_cdf : forall (F : Q -> Q) (FR : R -> R) (m M : Q) (N : nat) (x : Q),
-  (forall q : Q, Q2R (F q) = FR (Q2R q)) ->
-  Q2R (fold_cdf F m M N x) = RealSpec.KdeR.img_cdf FR (Q2R m) (Q2R M) N (Q2R x).
-Proof. exact Proofs.KdeQR.Q2R_fold_cdf. Qed.
-Print Assumptions C12_Q2R_fold_cdf.
+(* the rational definitions (model kernels, Spec/Kde.v) are the real ones at rational points *)
+Theorem C12_Q2R_bridge :
+  (forall h x : Q, (0 < h)%Q -> Q2R (epan_pdf h x) = RealSpec.KdeR.epan_pdf (Q2R h) (Q2R x)) /\
+  (forall h x : Q, (0 < h)%Q -> Q2R (epan_cdf h x) = RealSpec.KdeR.epan_cdf (Q2R h) (Q2R x)) /\
+  (forall (g : Q -> Q) (gR : R -> R) (ps : list (Q * Q)) (x : Q),
+     (forall q : Q, Q2R (g q) = gR (Q2R q)) -> pairs_ok ps ->
+     Q2R (wavg g ps x) = RealSpec.KdeR.kde_mix gR (Proofs.KdeQR.sampleR ps) (Q2R x)) /\
+  (forall (f : Q -> Q) (fR : R -> R) (m M : Q) (N : nat) (x : Q),
+     (forall q : Q, Q2R (f q) = fR (Q2R q)) ->
+     Q2R (fold_pdf f m M N x) = RealSpec.KdeR.img_pdf fR (Q2R m) (Q2R M) N (Q2R x)) /\
+  (forall (F : Q -> Q) (FR : R -> R) (m M : Q) (N : nat) (x : Q),
+     (forall q : Q, Q2R (F q) = FR (Q2R q)) ->
+     Q2R (fold_cdf F m M N x) = RealSpec.KdeR.img_cdf FR (Q2R m) (Q2R M) N (Q2R x)).
+Proof. exact Proofs.KdeCap.Q2R_bridge. Qed.
+Print Assumptions C12_Q2R_bridge.
 
 (* CAPSTONES: in every boundary setting there is a pair (fR, FR) of real functions with
    FR' = fR >= 0 continuous, FR non-decreasing, RInt fR a b = FR b - FR a for all a b
